@@ -1364,6 +1364,23 @@ func (e *Engine) evalValue(st *State, fr *frame, in ssa.Value) (Val, string) {
 		x := e.val(st, fr, in.X)
 		// dynamic type known?
 		if in.CommaOk {
+			// the parsers' stream stands for the *bufio.Reader their loader hands them (rule
+			// C07.only-through-tee): probing it for Discard (a forward-only skip) succeeds,
+			// probing it for anything else the model does not offer fails
+			if rd, isR := x.(*ReaderVal); isR {
+				if it, isI := in.AssertedType.Underlying().(*types.Interface); isI {
+					has := it.NumMethods() > 0
+					for k := 0; k < it.NumMethods(); k++ {
+						switch it.Method(k).Name() {
+						case "Read", "ReadByte", "Discard":
+						default:
+							has = false
+						}
+					}
+					return Tuple{rd, boolConst(has)}, ""
+				}
+				return Tuple{e.zeroVal(in.AssertedType), boolConst(false)}, ""
+			}
 			ok := &BoolVal{Op: "atom", K: "istype(" + valKey(x) + "," + typeString(in.AssertedType) + ")"}
 			nv := x
 			if o, isO := x.(*Opaque); isO {
